@@ -7,7 +7,7 @@ use std::hash::Hash;
 use cassadilia::{BlobHash, KeyBytes};
 
 pub const NK: usize = 4;
-pub const CONTENT_NAMES: [&str; 7] = ["A", "B", "C", "E", "G", "H", "M"];
+pub const CONTENT_NAMES: [&str; 8] = ["A", "B", "C", "E", "G", "H", "M", "X"];
 
 pub trait HKey: KeyBytes + Clone + Eq + Ord + Hash + Debug + Send + Sync + 'static {
     /// Four keys, ascending, for the key-type variant `kt`.
@@ -79,6 +79,7 @@ pub fn content_size(name: &str) -> usize {
         "G" => 70000,
         "H" => 300000, // larger than any plausible internal read step (256 KiB)
         "M" => 1_200_000, // more than 1 MiB ("large blob" thresholds)
+        "X" => 4_194_304, // exactly 4 MiB: a whole multiple of every plausible internal window (64 KiB, 1 MiB, 4 MiB)
         _ => panic!("unknown content {name}"),
     }
 }
@@ -110,22 +111,30 @@ pub struct Universe<K> {
     pub kt: String,
     pub keys: Vec<K>,
     pub key_bytes: Vec<Vec<u8>>,
-    pub contents: Vec<(String, Vec<u8>, BlobHash)>,
+    pub contents: std::sync::Arc<Vec<(String, Vec<u8>, BlobHash)>>,
 }
 
 impl<K: HKey> Universe<K> {
     pub fn new(kt: &str) -> Self {
         let keys = K::table(kt);
         let key_bytes = keys.iter().map(|k| k.to_key_bytes().as_ref().to_vec()).collect();
-        let contents = CONTENT_NAMES
-            .iter()
-            .map(|n| {
-                let b = content_bytes(n);
-                // independent one-shot hash of the bytes
-                let h = BlobHash::from_bytes(*blake3::hash(&b).as_bytes());
-                (n.to_string(), b, h)
+        // the contents do not depend on the key type: built once per process
+        static CONTENTS: std::sync::OnceLock<std::sync::Arc<Vec<(String, Vec<u8>, BlobHash)>>> = std::sync::OnceLock::new();
+        let contents = CONTENTS
+            .get_or_init(|| {
+                std::sync::Arc::new(
+                    CONTENT_NAMES
+                        .iter()
+                        .map(|n| {
+                            let b = content_bytes(n);
+                            // independent one-shot hash of the bytes
+                            let h = BlobHash::from_bytes(*blake3::hash(&b).as_bytes());
+                            (n.to_string(), b, h)
+                        })
+                        .collect(),
+                )
             })
-            .collect();
+            .clone();
         Universe { kt: kt.to_string(), keys, key_bytes, contents }
     }
     pub fn key(&self, abs: usize) -> K {
